@@ -167,6 +167,9 @@ def run(ctx):
     _scope = ("EasyFEA.Simulations._hyperelastic", "EasyFEA.Models.HyperElastic", "EasyFEA.FEM.Operators.NonLinear", "EasyFEA.Simulations._simu")
     ctx.attempt(_memo_rule, ctx, "R18.8", scope=lambda f: f.module.name.startswith(_scope), min_instances=0)
     ctx.attempt(_cached_param_rule, ctx, "R18.9", min_instances=20)
+    from ..shared import decorator_memo_rule as _decorator_memo_rule
+
+    ctx.attempt(_decorator_memo_rule, ctx, "R18.14", lambda ci: ci.module.name.startswith(("EasyFEA.Models.HyperElastic", "EasyFEA.FEM.Operators.NonLinear")), min_instances=10)
     from . import c14 as _c14
 
     ctx.attempt(_c14.simu_memo_state_rule, ctx, "R18.10")
